@@ -100,6 +100,7 @@ func genC15(w *World, res *CheckResult) {
 	res.Functions = append(res.Functions, g.funcs...)
 	res.Obls = append(res.Obls, selectObls(genPureAll(w), `^vm\.equal/`)...)
 	res.Functions = append(res.Functions, "vm.equal", "compiler.compiler.BinaryNode", "compiler.compiler.IdentifierNode", "compiler.compiler.IntegerNode")
+	genCheckerPointer(w, res)
 	verifyInit(w, res, "compiler")
 	// the optimizer's type-directed rewrites fire only for operands of exactly the type they are valid for
 	{
